@@ -91,5 +91,8 @@ def generate(G):
     form("ref_2x3_2x3", MM % ("false", "false", "false"), [U([2, 3]), U([2, 3])], "quick", "inner 3 vs 2 (needs bt)", kind="refusal")
     form("ref_2x2_3x2_at", MM % ("true", "false", "false"), [U([2, 2]), U([3, 2])], "thorough", "at: inner 2 vs 3", kind="refusal")
     form("ref_2x3_vec3", MM % ("false", "false", "false"), [U([2, 3]), U([3])], "thorough", "[2,3] x one-row [1,3]: inner 3 vs 1", kind="refusal")
+    form("ref_dot_3_4", MM % ("false", "false", "false"), [U([3]), U([4])], "quick", "dot product of vectors of different lengths (shorter on the left)", kind="refusal")
+    form("ref_dot_4_3", MM % ("false", "false", "false"), [U([4]), U([3])], "thorough", "dot product of vectors of different lengths (longer on the left)", kind="refusal")
+    form("ref_2x2_vec2", MM % ("false", "false", "false"), [U([2, 2]), U([2])], "thorough", "[2,2] x one-row [1,2]: inner 2 vs 1", kind="refusal")
     form("ref_l2_l3", MM % ("false", "false", "false"), [U([2, 1, 2]), U([3, 2, 1])], "thorough", "leading 2 vs 3", kind="refusal")
     form("ref_c3_for_2cols", MM % ("false", "false", "true"), [U([2, 2]), U([2, 2]), U([3])], "thorough", "additive term [3] for 2 columns", kind="refusal")
